@@ -126,9 +126,8 @@ def search(rng, tier, broken):
             f = {'kind': 'implicit', 'family': rng.choice(['lin', 'sq', 'exp']), 'a0': rng.uniform(0.5, 4.0), 'ua': round(rng.uniform(0.05, 1), 3),
                  'lo': 0.05, 'hi': rng.uniform(2.5, 6.0), 'dep': rng.random() < 0.5}
             if f['family'] == 'exp': f['lo'] = -2.0
-            if rng.random() < 0.3:      # a root exactly at a bracket end (regression oracle of the fixed finding C20-implicit-end)
-                f = {'kind': 'implicit_end', 'family': rng.choice(['lin', 'declin', 'scaled']), 'a0': rng.choice([1.0, 3.0, rng.uniform(0.5, 4.0)]),
-                     'ua': round(rng.uniform(0.05, 1), 3), 'end': rng.choice(['lo', 'hi']), 'width': rng.choice([2.0, 0.25]), 'eps': 1e-13}
+            if rng.random() < 0.4:      # a root exactly at a bracket end, linear and non-linear fn, independent and dependent inputs (regression oracle of the fixed finding C20-implicit-end)
+                f = p_C20.rand_implicit_end(rng)
             try:
                 p = p_C20.run_check(f)
             except Exception as ex:
